@@ -134,7 +134,7 @@ def run(ctx) -> None:
         if '.' not in s.key:
             # a plain local: a freshly built container (`cum = [0.0] * n`, np.zeros(...), a copy) is the module's own; anything else
             # might be a base series under another name
-            dfs = [x.value for x in ast.walk(cfn) if isinstance(x, ast.Assign) and len(x.targets) == 1 and norm(x.targets[0]) == s.key]
+            dfs = [x.value for x in ast.walk(cfn) if isinstance(x, ast.Assign) and any(norm(t_) == s.key for t_ in x.targets)]       # also `a = self.b.value = [..]`
             fresh = bool(dfs) and all(isinstance(v, (ast.List, ast.ListComp, ast.Dict)) or
                                       (isinstance(v, ast.BinOp) and isinstance(v.op, ast.Mult) and any(isinstance(z, ast.List) for z in (v.left, v.right))) or
                                       (isinstance(v, ast.Call) and ((dotted_name(v.func) or '').split('.')[-1] in ('zeros', 'ones', 'empty', 'full', 'list', 'copy', 'deepcopy', 'array')))
